@@ -55,6 +55,16 @@ var denseFiles = map[string]bool{"entry.go": true, "attr.go": true, "pc.go": tru
 func Generate(o Options) (*Report, error) {
 	rep := &Report{}
 	slogDir := filepath.Join(o.RepoDir, "slog")
+	// the iteration-order seam is applied to ranges over the package-level string-to-string tables of the tree under check,
+	// whatever they are called there (a renamed table must not escape the harness's control over its iteration order)
+	mapRangeIdents = map[string]bool{"knownPathMap": true, "codeHostingProvidersMap": true}
+	if vars, err := ScanGlobals(slogDir); err == nil {
+		for _, g := range vars {
+			if strings.ReplaceAll(g.Type, " ", "") == "map[string]string" {
+				mapRangeIdents[g.Name] = true
+			}
+		}
+	}
 	ents, err := os.ReadDir(slogDir)
 	if err != nil {
 		return nil, err
